@@ -90,7 +90,7 @@ func NewFS(c *Chain, opts FSOptions) *FS {
 		case "alphabet":
 			for i := 0; i < c.N; i++ {
 				nm := fmt.Sprintf("alphabet%d", i)
-				cc := CompileDir(Contract("alphabet").dir, nm)
+				cc := ContractNamed("alphabet", nm)
 				f.H[nm] = c.mustDeploy(cc, []any{false, f.H["netmap"], f.H["proxy"], nm, int64(i), int64(c.N)})
 				f.RegisterNNS(nm, f.H[nm])
 			}
